@@ -578,8 +578,8 @@ def resolve_runtime_selected(
         return None  # all outputs — no narrowing
     if isinstance(select, str):
         sel: tuple[str, ...] = (select,)
-    elif isinstance(select, (list, tuple)):
-        # a tuple means the same as a list (graph.selected itself is a tuple)
+    elif isinstance(select, (list, tuple, set, frozenset)):
+        # any collection of names means the same as a list (graph.selected itself is a tuple)
         sel = tuple(select)
     else:
         # Unexpected type — treat as "no narrowing" rather than raising, since
